@@ -861,10 +861,12 @@ Definition adv3 {A B C} (n : N) (s : stream) (r : stream * A * B * C) : Prop :=
   wfs n (fst (fst (fst r))) /\ le_s s (fst (fst (fst r))).
 
 Lemma block_lines_f_safe n folded indent : forall fuel s ch chunks breaks,
-  wfs n s -> peek s 0 = Ok ch -> is_end ch = false -> (length (s_rest s) < fuel)%nat ->
+  wfs n s -> peek s 0 = Ok ch -> is_end ch = false -> (length (s_rest s) <= fuel)%nat ->
   safe n (adv3 n s) (block_lines_f fuel folded indent s ch chunks breaks).
 Proof.
-  induction fuel as [|f IH]; intros s ch chunks breaks Hw Hpk Hne Hf; [lia|]. cbn [block_lines_f].
+  induction fuel as [|f IH]; intros s ch chunks breaks Hw Hpk Hne Hf.
+  { exfalso. destruct Hw as [_ [pre Hp]]. rewrite Hp, app_length in Hf. cbn [length] in Hf. lia. }
+  cbn [block_lines_f].
   destruct (wfs_peek _ _ Hw) as [c [r [Hr Hpk']]]. rewrite Hpk in Hpk'. inversion Hpk'; subst c.
   assert (Hstep : exists k s1, count_while (fun c => negb (mem_N c in_scan_block_scalar_1)) (s_rest s) = Ok k
             /\ forward s k = Ok s1 /\ wfs n s1 /\ le_s s s1 /\
